@@ -1030,6 +1030,7 @@ class Library:
         libmore.register_cmp(self)
         libmore.register_misc(self)
         libmore.register_result(self)
+        libmore.register_text_more(self)
         libmore.register_last(self)
 
     def apply_ctor_or_fn(self, fr, f, args):
